@@ -3,9 +3,11 @@ package pure
 import (
 	"fmt"
 	"net"
+	"os"
 	"testing"
 
 	"github.com/pion/turn/v5/internal/allocation"
+	"github.com/pion/turn/v5/internal/ipnet"
 	"github.com/pion/turn/v5/internal/zzverif/vkit"
 	"pgregory.net/rapid"
 )
@@ -195,6 +197,88 @@ func TestC04Fingerprint(t *testing.T) {
 		if kind != "" {
 			r.NoteFail(kind, msg, c)
 			rt.Fatalf("C04 %s", kind)
+		}
+	})
+}
+
+// runAddrKey is the oracle for the map keys of permissions (per peer IP, on the server and in the
+// client) and for the peer comparison of channel bindings: FingerprintAddr is equal exactly for
+// equal IP addresses (ports and address type do not matter), AddrEqual exactly for equal IP and
+// port of the same address type.
+func runAddrKey(a, b FPAddr) (kind, msg string) {
+	defer func() {
+		if p := recover(); p != nil {
+			kind, msg = "panic", fmt.Sprint(p)
+		}
+	}()
+	sameIP := net.IP(a.IP).Equal(net.IP(b.IP))
+	if got := ipnet.FingerprintAddr(a.addr()) == ipnet.FingerprintAddr(b.addr()); got != sameIP {
+		if got {
+			return "distinct-peers-share-permission-key", fmt.Sprintf("%v and %v are different hosts with one permission key %q", a.addr(), b.addr(), ipnet.FingerprintAddr(a.addr()))
+		}
+
+		return "one-peer-two-permission-keys", fmt.Sprintf("%v and %v are the same host with two permission keys %q / %q", a.addr(), b.addr(), ipnet.FingerprintAddr(a.addr()), ipnet.FingerprintAddr(b.addr()))
+	}
+	want := sameIP && a.Port == b.Port && a.TCP == b.TCP
+	if got := ipnet.AddrEqual(a.addr(), b.addr()); got != want {
+		return "addr-equal-wrong", fmt.Sprintf("AddrEqual(%v, %v) = %v", a.addr(), b.addr(), got)
+	}
+	if ipnet.AddrEqual(a.addr(), b.addr()) != ipnet.AddrEqual(b.addr(), a.addr()) {
+		return "addr-equal-asymmetric", fmt.Sprintf("AddrEqual(%v, %v) is not symmetric", a.addr(), b.addr())
+	}
+
+	return "", ""
+}
+
+// AddrKeyCase is the replay format of TestAddrKey.
+type AddrKeyCase struct {
+	A, B    FPAddr
+	AddrKey bool `json:"addr_key"`
+}
+
+// TestAddrKey runs for the property named in VERIF_ID (C01, C02, C07 share the permission key).
+func TestAddrKey(t *testing.T) {
+	r := vkit.Start(t, os.Getenv("VERIF_ID"))
+	defer r.Finish()
+	do := func(c *AddrKeyCase) (string, string) {
+		r.Eval(1)
+		same := net.IP(c.A.IP).Equal(net.IP(c.B.IP))
+		if same {
+			r.Label("addrkey:same-host")
+		} else {
+			r.Label("addrkey:different-hosts")
+		}
+		if (net.IP(c.A.IP).To4() == nil) != (net.IP(c.B.IP).To4() == nil) {
+			r.Label("addrkey:mixed-families")
+		}
+		r.NonTrivial(vkit.Hash64(c))
+		r.Sample(map[bool]string{true: "addrkey-same", false: "addrkey-different"}[same], func() any { return c })
+
+		return runAddrKey(c.A, c.B)
+	}
+	if r.Replay != "" {
+		var c AddrKeyCase
+		if err := vkit.LoadJSON(r.Replay, &c); err != nil || !c.AddrKey {
+			fmt.Println("REPLAY-NOT-MINE: not an address-key case")
+
+			return
+		}
+		kind, msg := do(&c)
+		fmt.Printf("replay %s: kind=%q %s\n", r.Replay, kind, msg)
+		if kind != "" {
+			r.Violate(kind, msg, &c)
+		}
+
+		return
+	}
+	r.Rapid(t, "addrkey", 0, r.Checks*20, func(rt *rapid.T) {
+		c := &AddrKeyCase{A: genFPAddr(rt, "a"), AddrKey: true}
+		c.B = genRelated(rt, c.A, "b")
+		r.Journal(c)
+		kind, msg := do(c)
+		if kind != "" {
+			r.NoteFail(kind, msg, c)
+			rt.Fatalf("%s %s", r.ID, kind)
 		}
 	})
 }
